@@ -3,6 +3,7 @@
 import argparse
 import importlib
 import json
+import re
 import os
 import sys
 import time
@@ -42,6 +43,21 @@ def main():
     forbidden = vlib.grep_forbidden()
     closed = assumptions_out.count("Closed under the global context")
     axioms_listed = "Axioms:" in assumptions_out
+
+    coqchk_note = None
+    if tier == "thorough" and proof_ok and not a.replay:
+        # independent re-check of the compiled property file and everything it depends on
+        rc, out = vlib.sh(["coqchk", "-silent", "-o", "-Q", vlib.COQ, "Sonic", "Sonic.Properties.%s" % pid], cwd=vlib.COQ, timeout=3000)
+        m = re.search(r"\* Axioms:\s*(.*?)\n\s*\n", out, re.S)
+        axioms = m.group(1).strip() if m else "?"
+        coqchk_note = "coqchk -silent -o Sonic.Properties.%s: exit %d; axioms: %s" % (pid, rc, axioms)
+        if rc != 0 or axioms != "<none>":
+            proof_ok = False
+            coqchk_failed = out[-1500:]
+        else:
+            coqchk_failed = None
+    else:
+        coqchk_failed = None
 
     if a.replay:
         rp = json.load(open(a.replay))
@@ -178,6 +194,8 @@ def main():
         broken["coq_log_tail"] = bs.coq_log[-2500:]
     if forbidden:
         broken["forbidden_constructs"] = forbidden
+    if coqchk_failed:
+        broken["coqchk"] = coqchk_failed
     if axioms_listed or (proof_ok and closed < len(theorems)):
         broken["axioms"] = "Print Assumptions: %d of %d theorems closed under the global context; %s" % (closed, len(theorems), assumptions_out[-1200:])
     if any_mismatch:
@@ -213,6 +231,8 @@ def main():
         correspondence_mismatches=len(any_mismatch), known_findings_hit=sorted(known_printed),
         clauses_of_sibling_properties_hit=foreign,
     )
+    if coqchk_note:
+        coverage["coqchk"] = coqchk_note
     coverage.update(extra_cov)
     if not samples:
         coverage["samples"] = extra_cov.get("samples", ["(none)"])
